@@ -390,7 +390,35 @@ class ListArr(object):
     # ---- elementwise arithmetic (NumPy broadcasting of a scalar or an equally long array)
     alias = "fresh"          # 'input': may share memory with the caller's raw data (purity tracking, C13)
 
-    def _zip(self, o, f, dtype="float64"):
+    def _res_dtype(self, o, truediv=False):
+        """NumPy 2 (NEP 50) result dtype of self <op> o: Python scalars are weakly typed, NumPy scalars and arrays
+        are not; true division of integers is double.  Assumed contract of NumPy's promotion, evaluated with
+        np.result_type on the dtypes."""
+        if self.dtype_ is None:
+            return np.dtype("float64")
+        a = self.dtype_
+        if isinstance(o, ListArr):
+            if o.dtype_ is None:
+                return np.dtype("float64")
+            r = np.result_type(a, o.dtype_)
+        elif isinstance(o, np.generic):
+            r = np.result_type(a, o.dtype)
+        elif isinstance(o, (bool, SymBool)):
+            r = a
+        elif isinstance(o, (int, SymInt)):
+            r = a if a.kind in "iufc" else np.dtype("int64")
+        elif isinstance(o, complex):
+            r = np.result_type(a, np.complex64) if a.kind in "fc" and a.itemsize <= 8 and a.kind != "c" else \
+                np.result_type(a, np.complex128)
+        else:                                       # Python float (SymReal, FloatBits, float)
+            r = a if a.kind in "fc" else np.dtype("float64")
+        if truediv and r.kind in "iub":
+            r = np.dtype("float64")
+        return r
+
+    def _zip(self, o, f, dtype=None, truediv=False):
+        if dtype is None:
+            dtype = self._res_dtype(o, truediv)
         if isinstance(o, ListArr):
             if len(o.items) != len(self.items):
                 raise Unsupported("elementwise op on different lengths")
@@ -416,10 +444,10 @@ class ListArr(object):
         return self._zip(o, lambda a, b: b * a)
 
     def __truediv__(self, o):
-        return self._zip(o, lambda a, b: a / b)
+        return self._zip(o, lambda a, b: a / b, truediv=True)
 
     def __rtruediv__(self, o):
-        return self._zip(o, lambda a, b: b / a)
+        return self._zip(o, lambda a, b: b / a, truediv=True)
 
     def __neg__(self):
         return ListArr([-a for a in self.items], self.dtype_)
